@@ -9,8 +9,8 @@ Ltac Zify.zify_post_hook ::= Z.to_euclidean_division_equations.
 Fixpoint frag (e : expr) : bool :=
   match e with
   | ENull | EBool _ | EInt _ | EId _ => true
-  | ENested a | EAssign _ a => frag a
-  | EArith _ a b | ELogic _ a b => frag a && frag b
+  | ENested a | ENeg a | ENot a | EAssign _ a | EOpAssign _ _ a => frag a
+  | EArith _ a b | ECmp _ a b | ELogic _ a b => frag a && frag b
   | _ => false
   end.
 
